@@ -93,7 +93,14 @@ fn gen_outline(r: &mut Rng, t: &TaskCtx) -> Vec<Entry> {
                     _ => format!("N$i >= {}", nn - r.range(0, 1)),
                 };
                 let name = format!("in{k}");
-                let text = format!("N$i >= {nn} -> {f}");
+                // now and then an antecedent that is a comparison chain (not of the form N >= n)
+                let text = if r.chance(1, 8) {
+                    let rel = ["!=", "<", ">=", "="][r.upto(4)];
+                    let t2 = ["N$i".to_string(), format!("{}", nn + 1), "N$i + 1".to_string()][r.upto(3)].clone();
+                    format!("N$i >= {nn} {rel} {t2} -> {f}")
+                } else {
+                    format!("N$i >= {nn} -> {f}")
+                };
                 entries.push(Entry { role: "inductive-lemma", dir, name, text, induction: Some((nn, f)) });
             }
             _ => {
@@ -217,7 +224,9 @@ fn check_induction(t: &TaskCtx, entries: &[Entry], d: Dir, problems: &[ProblemDa
             continue;
         }
         let conj: Vec<fol::Formula> = obligations.iter().flat_map(|p| p.conjectures().cloned()).collect();
-        let Ok(f) = ftext.parse::<fol::Formula>() else { continue };
+        // what becomes available as an axiom is the lemma as written (antecedent -> F)
+        let _ = ftext;
+        let Ok(f) = l.text.parse::<fol::Formula>() else { continue };
         let f = replace_placeholders(&f, &t.placeholders);
         let preds = formula_preds(&f);
         let pool = default_pool();
@@ -258,7 +267,7 @@ fn check_induction(t: &TaskCtx, entries: &[Entry], d: Dir, problems: &[ProblemDa
                 continue;
             }
             st.inc("induction_interpretations_with_both_obligations_true");
-            for k in *n..(*n + 13) {
+            for k in (*n - 3)..(*n + 13) {
                 let mut a = Assign::new();
                 a.insert(("N".into(), Sort::I), Value::Int(k as i128));
                 for v in f.free_variables() {
@@ -272,7 +281,7 @@ fn check_induction(t: &TaskCtx, entries: &[Entry], d: Dir, problems: &[ProblemDa
                         st.eval(None);
                         st.violation(
                             "induction-unsound",
-                            format!("inductive lemma {}: base and step are true but F is false for N = {k}", l.name),
+                            format!("inductive lemma {}: base and step are true but the lemma is false for N = {k}", l.name),
                             origin.clone().set("lemma", J::s(&l.text)).set("base", J::s(conj[0].to_string())).set("step", J::s(conj[1].to_string())).set("I", interp_json(&interp)),
                         );
                         return;
